@@ -6,6 +6,7 @@ package main
 import (
 	"fmt"
 	"go/token"
+	"go/types"
 
 	"golang.org/x/tools/go/ssa"
 )
@@ -19,6 +20,8 @@ func checkC15(c *Ctx, r *Report) {
 	r.floor("R15.2", 1)
 	r.floor("R15.3", 1)
 	r.floor("R15.4", 1)
+	r.floor("R15.5", 2)
+	c15Factory(c, r)
 	// the per-packet step is the function of package server that calls the stream classifier
 	cls := c.fnMust("packet", "LooksLikeModbusTCP")
 	var step *ssa.Function
@@ -356,4 +359,140 @@ func c15Conn(c *Ctx, r *Report, h *ssa.Function) {
 	rep(len(write.Common().Args) == 1 && write.Common().Args[0] == toSend && recv.Block().Dominates(write.Block()), "the reply written is the one the assembler returned for this read", "write-arg", c.pos(write.Pos()))
 	// write happens before the next Read: the write block is not the read block and lies on the path back
 	rep(read.Block().Dominates(recv.Block()) && recv.Block().Dominates(write.Block()), "Read, assembler and Write happen in this order within one iteration", "order", c.pos(write.Pos()))
+}
+
+// c15Factory: R15.5 — per-connection reassembly state: every assembler factory the server package
+// itself installs returns an object allocated by that very call (never a captured or
+// package-level assembler that concurrent connections would share). The factory is then
+// invoked once per accepted connection (checked on the connection handler).
+func c15Factory(c *Ctx, r *Report) {
+	sp := c.pkg("server")
+	isFactory := func(t types.Type) bool {
+		sig, ok := t.Underlying().(*types.Signature)
+		if !ok || sig.Results().Len() != 1 {
+			return false
+		}
+		return hasMethods(sig.Results().At(0).Type(), "ReceiveRead")
+	}
+	n := 0
+	for _, fn := range c.allFuncs("server") {
+		for _, b := range fn.Blocks {
+			for _, in := range b.Instrs {
+				st, ok := in.(*ssa.Store)
+				if !ok || !isFactory(st.Val.Type()) {
+					continue
+				}
+				if _, isField := st.Addr.(*ssa.FieldAddr); !isField {
+					continue
+				}
+				var body *ssa.Function
+				switch v := st.Val.(type) {
+				case *ssa.MakeClosure:
+					body, _ = v.Fn.(*ssa.Function)
+				case *ssa.Function:
+					body = v
+				}
+				if body == nil {
+					continue // a caller-supplied factory: outside the property
+				}
+				n++
+				r.instance("R15.5", 1)
+				id := fnID(body)
+				r.funcs[id] = true
+				_, fr := analyse(c, body)
+				okAll := len(fr.returns) > 0
+				detail := ""
+				for _, rs := range fr.returns {
+					fresh := false
+					if ifc, ok := rs.vals[0].(AIface); ok {
+						if p, ok := ifc.val.(APtr); ok && p.obj != nil && !p.obj.symbolic && p.obj.alloc != nil && p.obj.alloc.Parent() == body && p.path == "" {
+							fresh = true
+						}
+					}
+					if !fresh {
+						okAll = false
+						detail = describeAV(rs.vals[0])
+					}
+				}
+				if okAll {
+					r.ok("R15.5", id, "the assembler factory installed by "+fn.Name()+" returns an assembler allocated by that very call", c.pos(st.Pos()), true)
+				} else {
+					r.fail("R15.5", id, "the assembler factory installed by "+fn.Name()+" can return an assembler that was not allocated by the call: connections would share one reassembly buffer", c.pos(st.Pos()), detail, "shared-assembler")
+				}
+			}
+		}
+	}
+	// the factory is called inside the per-connection handler (once per connection, not per server)
+	var handler *ssa.Function
+	for _, fn := range c.allFuncs("server") {
+		for _, b := range fn.Blocks {
+			for _, in := range b.Instrs {
+				call, ok := in.(*ssa.Call)
+				if !ok || call.Common().IsInvoke() || call.Common().StaticCallee() != nil {
+					continue
+				}
+				if !isFactory(call.Common().Value.Type()) {
+					continue
+				}
+				handler = fn
+				r.instance("R15.5", 1)
+				n++
+				// once per accepted connection: the call is dominated by the Accept of this iteration
+				// and lies on the cycle back to it
+				perConn := false
+				for _, b2 := range fn.Blocks {
+					for _, in2 := range b2.Instrs {
+						if ac, ok := in2.(ssa.CallInstruction); ok && ac.Common().IsInvoke() && ac.Common().Method.Name() == "Accept" {
+							if b2.Dominates(call.Block()) && blockReaches(call.Block(), b2) {
+								perConn = true
+							}
+						}
+					}
+				}
+				if perConn {
+					r.ok("R15.5", fnID(fn), "the factory is invoked once per accepted connection (after each Accept, inside the accept loop)", c.pos(call.Pos()), true)
+				} else {
+					r.fail("R15.5", fnID(fn), "the assembler factory is not invoked once per accepted connection", c.pos(call.Pos()), "", "factory-not-per-connection")
+				}
+			}
+		}
+	}
+	_ = handler
+	_ = sp
+	if n == 0 {
+		r.undecided("R15.5", "server", "no assembler factory store or call found", "-")
+	}
+}
+
+func hasConnField(t types.Type) bool {
+	st, ok := deref(t).Underlying().(*types.Struct)
+	if !ok {
+		return false
+	}
+	for i := 0; i < st.NumFields(); i++ {
+		if hasMethods(st.Field(i).Type(), "Read", "Write", "Close") {
+			return true
+		}
+	}
+	return false
+}
+
+func blockReaches(from, to *ssa.BasicBlock) bool {
+	seen := map[*ssa.BasicBlock]bool{}
+	var walk func(b *ssa.BasicBlock) bool
+	walk = func(b *ssa.BasicBlock) bool {
+		for _, s := range b.Succs {
+			if s == to {
+				return true
+			}
+			if !seen[s] {
+				seen[s] = true
+				if walk(s) {
+					return true
+				}
+			}
+		}
+		return false
+	}
+	return walk(from)
 }
